@@ -23,6 +23,7 @@ pub trait ExWrite {
             Err(_) => delivered_prefix(old(self).sunk(), final(self).sunk(), buf@),
         };
 }
+#[verifier::opaque]
 pub open spec fn delivered_prefix(old: Seq<u8>, new: Seq<u8>, buf: Seq<u8>) -> bool {
     old.len() <= new.len() <= old.len() + buf.len() && new == old + buf.subrange(0, new.len() - old.len())
 }
@@ -108,6 +109,7 @@ fn shim_sum_by_params_len<'d>(classes: &BTreeMap<&'d str, ClassInProgress<'d>>) 
 pub open spec fn zeros(n: int) -> Seq<u8> { Seq::new(n as nat, |i: int| 0u8) }
 pub open spec fn pad_len(n: int) -> int { (8 - n % 8) % 8 }
 // `new` is `old` followed by k zero bytes (element-wise form: provable for an inline `&[0u8; 8][..k]` temporary)
+#[verifier::opaque]
 pub open spec fn ext_by_zeros(old: Seq<u8>, new: Seq<u8>, k: int) -> bool {
     k >= 0 && new.len() == old.len() + k && (forall|i: int| 0 <= i < old.len() ==> #[trigger] new[i] == old[i])
     && (forall|i: int| old.len() <= i < new.len() ==> #[trigger] new[i] == 0u8)
@@ -115,7 +117,7 @@ pub open spec fn ext_by_zeros(old: Seq<u8>, new: Seq<u8>, k: int) -> bool {
 pub proof fn lemma_ext_by_zeros(old: Seq<u8>, new: Seq<u8>, k: int)
     requires ext_by_zeros(old, new, k),
     ensures new == old + zeros(k),
-{ assert(new =~= old + zeros(k)); }
+{ reveal(ext_by_zeros); assert(new =~= old + zeros(k)); }
 pub open spec fn padded(b: Seq<u8>) -> Seq<u8> { b + zeros(pad_len(b.len() as int)) }
 
 // the class record emitted for class number i: its two ranges start where the previous classes' ranges end, each in ITS OWN section
@@ -156,6 +158,7 @@ pub open spec fn canonical(cs: Seq<ClassInProgress>, strings: Seq<u8>) -> Seq<u8
         + padded(members_bytes(all_by_params(cs, cs.len() as int)))
         + strings
 }
+#[verifier::opaque]
 pub open spec fn is_prefix_of(p: Seq<u8>, s: Seq<u8>) -> bool { p.len() <= s.len() && s.subrange(0, p.len() as int) == p }
 
 // what the collection loop of `write` maintains for every class it stores (ASSUMED there): the two length fields count the
